@@ -65,10 +65,11 @@ def gen_case(rnd, prop, tier):
              'many-min': {'many_min': 1.0}, 'many-const': {'many_const': 0.7}}[pol]
     shuffle = rnd.choice(['random', 'random', 'identity', 'reverse'])
     rows2 = None
-    if method == 'round' and rows is not None and rnd.random() < 0.35:
-        rows2 = rnd.choice([100000, 20000])
+    cache = rnd.choice([None, None, 'many', 'bp'])
+    if rows is not None and rnd.random() < (0.35 if cache is None else 0.8):
+        rows2 = rnd.choice([100000, 20000]) if method == 'round' else rnd.choice([1, 7, 1000])
     return dict(engine='E', attrs=attrs, sizes=sizes, cliques=cliques, kind=kind, pots=pots, total=total, elim=elim, method=method,
-                rows=rows, rows2=rows2, policy=dict(name=pol, rates=rates, shuffle=shuffle), rng_seed=rnd.getrandbits(32), fold='harness')
+                rows=rows, rows2=rows2, cache=cache, policy=dict(name=pol, rates=rates, shuffle=shuffle), rng_seed=rnd.getrandbits(32), fold='harness')
 
 
 def sample_view(case):
@@ -104,10 +105,28 @@ def rounding_bounds(model, sizes_of):
     return S, E
 
 
-def run_once(mbi, case, rows, viol, faults, probes, seqs, tag):
-    attrs, sizes, total = case['attrs'], case['sizes'], case['total']
+def make_model(mbi, case, probes):
     model, _ = a_bp.build(mbi, case, case['elim'], 'C11')
     model.potentials = a_bp.fold(mbi, case, model)
+    with np.errstate(all='ignore'):
+        if case.get('cache') == 'bp':       # what the estimators leave behind
+            model.marginals = model.belief_propagation(model.potentials)
+        elif case.get('cache') == 'many':   # what a bulk query leaves behind
+            model.calculate_many_marginals([tuple(case['attrs'][:2])])
+    if hasattr(model, 'marginals'):
+        probes['model-with-cached-marginals'] = 1
+    return model
+
+
+def model_state(model):
+    parts = [core.arr_digest(model.potentials[cl].values) for cl in model.cliques]
+    if hasattr(model, 'marginals'):
+        parts += [core.arr_digest(model.marginals[cl].values) for cl in model.cliques]
+    return parts
+
+
+def run_once(mbi, case, model, rows, viol, faults, probes, seqs, tag):
+    attrs, sizes, total = case['attrs'], case['sizes'], case['total']
     pots_in = [(cl, gen.pot_array(case, k)) for k, cl in enumerate(case['cliques'])]
     logp = refmodel.joint_logp(attrs, sizes, pots_in)
     z = refmodel.lse(logp)
@@ -210,7 +229,9 @@ def run_case(case, prop):
     steps = 0
     nontrivial = False
     try:
-        rng = run_once(mbi, case, case['rows'], viol, faults, probes, seqs, 'rows=%r' % case['rows'])
+        model = make_model(mbi, case, probes)
+        state0 = model_state(model)
+        rng = run_once(mbi, case, model, case['rows'], viol, faults, probes, seqs, 'rows=%r' % case['rows'])
         steps += len(rng.events)
         multi = any(len(cl) >= 2 for cl in case['cliques'])
         if case['method'] == 'sample':
@@ -218,9 +239,10 @@ def run_case(case, prop):
         else:
             nontrivial = multi and probes.get('round-top-up', 0) > 0
         if case.get('rows2') and not viol:
-            rng2 = run_once(mbi, case, case['rows2'], viol, faults, probes, seqs, 'rows=%r (second row count, same model and policy)' % case['rows2'])
+            rng2 = run_once(mbi, case, model, case['rows2'], viol, faults, probes, seqs, 'rows=%r (second call on the same model object, same policy)' % case['rows2'])
             steps += len(rng2.events)
-            probes['two-row-counts'] = 1
+            probes['second-call-same-object'] = 1
+            faults['model-object-reuse'] = 1
         dg = core.digest([rng.summary()[:200], [v['sig'] for v in viol]])
     except Violation as e:
         viol.append(e.as_dict())
